@@ -11,7 +11,7 @@ From VL Require Import Prelude.Sx Prelude.PyDict Prelude.GDict Model.GetNBest Mo
      Model.Convert Model.Condorcet Model.Bucklin
      Proofs.Dict_proofs Proofs.HA_proofs Proofs.Divisor_proofs Proofs.Mono_proofs Proofs.Additive_proofs
      Proofs.Convert_proofs Proofs.CopelandMono_proofs Proofs.Minimax_proofs Proofs.Condorcet_proofs Proofs.Schulze_proofs Proofs.Bucklin_proofs
-     Proofs.BucklinShared_proofs.
+     Proofs.BucklinShared_proofs Proofs.BucklinLeave_proofs.
 From VL Require Model.Hybrids Proofs.Hybrids_proofs.
 From VL Require Import Proofs.RaisesBallot_proofs Proofs.Scorers_proofs.
 From VL Require Gen.Rankscore.
@@ -521,6 +521,60 @@ Proof.
   exact (pa_move_up_shared oklahoma_coef pre post p1 p2 p3 x w H1 H2).
 Qed.
 
+(* ---- the winner LEAVES a shared rank (Proofs/BucklinLeave_proofs.v): from the shared rank {la, w, lb} to a place of its own, directly
+   above the rest {la, lb} of the rank or further up past the items p2.  The old ballot has k! variants for that rank, the new one
+   (k-1)!; itertools.permutations of (la ++ w :: lb) is, as a multiset, every insertion of w into every permutation of (la ++ lb)
+   ([perms_insert], proved for the model of permutations [perms_n]/[picks] by sums), so the sum of any w-monotone functional over the
+   old variants is at most k times the sum over the new ones, and the means are ordered. *)
+Theorem C17_preference_addition_leave_shared : forall (coef : nat -> Q) pre post (p1 p2 p3 : ranked) (la lb : list C) (x : Q) (w : C),
+  (forall i, 0 <= coef i)%Q -> (forall i, coef (S i) <= coef i)%Q ->
+  Forall (fun bw => 0 <= snd bw)%Q (pre ++ post) -> (0 <= x)%Q -> ~ In w (la ++ lb) -> ~ In w (flatten p2) ->
+  pa_eval true coef true (pre ++ (p1 ++ p2 ++ IS (la ++ w :: lb) :: p3, x) :: post) 1 = PA_ok [Cand w] ->
+  pa_eval true coef true (pre ++ (p1 ++ IP w :: p2 ++ IS (la ++ lb) :: p3, x) :: post) 1 = PA_ok [Cand w].
+Proof. exact pa_leave_shared_up. Qed.
+
+Theorem C17_bucklin_leave_shared : forall pre post (p1 p2 p3 : ranked) (la lb : list C) (x : Q) (w : C),
+  Forall (fun bw => 0 <= snd bw)%Q (pre ++ post) -> (0 <= x)%Q -> ~ In w (la ++ lb) -> ~ In w (flatten p2) ->
+  bucklin true (pre ++ (p1 ++ p2 ++ IS (la ++ w :: lb) :: p3, x) :: post) 1 = PA_ok [Cand w] ->
+  bucklin true (pre ++ (p1 ++ IP w :: p2 ++ IS (la ++ lb) :: p3, x) :: post) 1 = PA_ok [Cand w].
+Proof.
+  intros pre post p1 p2 p3 la lb x w. destruct bucklin_coef_good as [H1 H2].
+  exact (pa_leave_shared_up bucklin_coef pre post p1 p2 p3 la lb x w H1 H2).
+Qed.
+
+Theorem C17_oklahoma_leave_shared : forall pre post (p1 p2 p3 : ranked) (la lb : list C) (x : Q) (w : C),
+  Forall (fun bw => 0 <= snd bw)%Q (pre ++ post) -> (0 <= x)%Q -> ~ In w (la ++ lb) -> ~ In w (flatten p2) ->
+  oklahoma true (pre ++ (p1 ++ p2 ++ IS (la ++ w :: lb) :: p3, x) :: post) 1 = PA_ok [Cand w] ->
+  oklahoma true (pre ++ (p1 ++ IP w :: p2 ++ IS (la ++ lb) :: p3, x) :: post) 1 = PA_ok [Cand w].
+Proof.
+  intros pre post p1 p2 p3 la lb x w. destruct oklahoma_coef_good as [H1 H2].
+  exact (pa_leave_shared_up oklahoma_coef pre post p1 p2 p3 la lb x w H1 H2).
+Qed.
+
+(* two ballots with the same variants are interchangeable (e.g. a shared rank with one member written as a plain rank); so when w
+   leaves a shared PAIR {w, c} the remaining member may be written as the plain rank c *)
+Theorem C17_preference_addition_same_variants : forall (coef : nat -> Q) pre post (b b' : ranked) (x : Q) (w : C),
+  Forall (fun bw => 0 <= snd bw)%Q (pre ++ post) -> (0 <= x)%Q -> svariants b = svariants b' ->
+  pa_eval true coef true (pre ++ (b, x) :: post) 1 = PA_ok [Cand w] ->
+  pa_eval true coef true (pre ++ (b', x) :: post) 1 = PA_ok [Cand w].
+Proof. exact pa_same_variants. Qed.
+
+Theorem C17_preference_addition_leave_pair : forall (coef : nat -> Q) pre post (p1 p2 p3 : ranked) (la lb : list C) (c : C) (x : Q) (w : C),
+  (forall i, 0 <= coef i)%Q -> (forall i, coef (S i) <= coef i)%Q ->
+  Forall (fun bw => 0 <= snd bw)%Q (pre ++ post) -> (0 <= x)%Q -> la ++ lb = [c] -> c <> w -> ~ In w (flatten p2) ->
+  pa_eval true coef true (pre ++ (p1 ++ p2 ++ IS (la ++ w :: lb) :: p3, x) :: post) 1 = PA_ok [Cand w] ->
+  pa_eval true coef true (pre ++ (p1 ++ IP w :: p2 ++ IP c :: p3, x) :: post) 1 = PA_ok [Cand w].
+Proof. exact pa_leave_pair. Qed.
+
+(* non-vacuity: {(A,{B,C,W}): 2, (W): 1, (B,W): 3, (A): 1} (A,B,C = 1,2,3, W = 6): Bucklin elects W (without the first ballot: B); W leaves
+   the shared rank of the first ballot for the first place: (W,A,{B,C}); 6 variants before, 2 after *)
+Example C17_bucklin_leave_example :
+  let post := [([IP 6%positive], 1%Q); ([IP 2; IP 6]%positive, 3%Q); ([IP 1%positive], 1%Q)] in
+  bucklin true ([] ++ ([] ++ [IP 1%positive] ++ IS ([2%positive] ++ 6%positive :: [3%positive]) :: [], 2%Q) :: post) 1 = PA_ok [Cand 6%positive] /\
+  bucklin true ([] ++ ([] ++ IP 6%positive :: [IP 1%positive] ++ IS ([2%positive] ++ [3%positive]) :: [], 2%Q) :: post) 1 = PA_ok [Cand 6%positive] /\
+  length (variants true [IP 1; IS [2; 6; 3]]%positive) = 6%nat /\ length (variants true [IP 6; IP 1; IS [2; 3]]%positive) = 2%nat.
+Proof. vm_compute. repeat split; reflexivity. Qed.
+
 (* non-vacuity: {({A,B},{C,D},E,W): 2, (C,W): 3, (W): 1} (A..E = 1..5, W = 6): the first ballot has 4 variants of weight 1/2 each;
    Bucklin elects W in both profiles (without that ballot C would win) *)
 Example C17_bucklin_shared_example :
@@ -592,3 +646,8 @@ Print Assumptions C17_scorer_ok.
 Print Assumptions C17_gen_scorers_nonincreasing.
 Print Assumptions C17_positional_any.
 Print Assumptions C17_scorers_conditions_needed.
+Print Assumptions C17_preference_addition_leave_shared.
+Print Assumptions C17_bucklin_leave_shared.
+Print Assumptions C17_oklahoma_leave_shared.
+Print Assumptions C17_preference_addition_same_variants.
+Print Assumptions C17_preference_addition_leave_pair.
